@@ -24,6 +24,7 @@ DOC = {
  "C17.R5": "allow-list: send_serialized receivers in the Cast/Call arms originate from the Some payload of authorized_local_actor, which returns Some only on advertised.contains(pid) and supports_remoting; the advertised set is written only from local pid events and the post-auth scan",
  "C17.R6": "GetSessions inserts only on the true edge of authenticated_sessions.contains; that set is inserted into only by commit_authenticated, called only from the ConnectionAuthenticated arm",
  "C17.R8": "challenge_digest feeds the hash the complete cookie (as_bytes of the parameter, no slicing/capping) and the complete challenge; the hash consumes the assembled buffer whole",
+ "C17.R9": "the keyed input of the handshake digest is bound to the exchange: handle_auth derives the secret it gives the auth machines from more than the bare cookie (a call combining it with the endpoint names / role), or challenge_digest has a further input",
  "C17.R7": "a Close result stops the session (handle_auth's is_close edge calls stop on itself and the transport)",
 }
 
@@ -470,6 +471,37 @@ def r8(run, db):
     run.anchor("hash input fragments", len(srcs), 2, f.where())
 
 
+def r9(run, db):
+    """`proving knowledge of the shared cookie`: an answer must be usable only in the exchange it was computed for.  Both
+    directions and every pair of endpoints compute SHA256(challenge || cookie) over the *bare* cookie, and a client-side
+    session answers any challenge a not-yet-authenticated server sends it.  A peer without the cookie can therefore have the
+    node itself compute the digest it is asked for on another connection (reflection / relay).  Necessary structural condition
+    for excluding that: the keyed input of the digest is bound to the exchange -- the secret handed to the auth machines is
+    derived from the cookie *and* the two node names / the role, or challenge_digest takes such an input itself."""
+    dig = run.need(db.fn("ractor_cluster::hash::challenge_digest"), "hash::challenge_digest")
+    extra_param = dig.arg_count > 2
+    ha = [f for f in db.crate_fns(RC) if re.search(r"NodeSession::handle_auth::\{closure#0\}$", f.id)]
+    run.anchor("handle_auth", len(ha), 1)
+    if not ha:
+        return
+    f = ha[0]
+    run.saw(len(f.blocks), f)
+    calls = [c for c in f.calls() if c.callee and re.search(r"auth::(Client|Server)AuthenticationProcess::(next|start_challenge)$", c.callee)]
+    run.anchor("auth machine steps in handle_auth", len(calls), 3, f.where())
+    bare = []
+    for c in calls:
+        sec = c.args[-1]
+        roots = f.origins(sec, through=lambda cc: 0 if cc.matches(r"Deref>::deref$|String::as_str$|AsRef|Borrow") else None)
+        # bare = the value is a plain projection of the session state (the cookie field), not the result of any call that
+        # could have mixed other material into it
+        is_bare = bool(roots) and not any(r["k"] == "call" for r in roots)
+        if is_bare:
+            bare.append(c)
+    run.check(extra_param or not bare, "digest-bound-to-exchange",
+              "the digest's keyed input is bound to the exchange (role / endpoint names), so an answer cannot be replayed on another connection",
+              "all %d handshake steps hand the auth machines the bare cookie and challenge_digest(secret, challenge) has no further input: the digest a client-side session computes for a challenge chosen by its (unauthenticated) server is exactly what a server-side session of the same node expects -- a peer that never knew the cookie can authenticate by reflecting the node's own challenge between two connections" % len(bare), f.where())
+
+
 Q = ["rc"]
 TH = ["rc", "rcatr"]
-RULES = [{"id": "C17.R%d" % i, "fn": f, "quick": Q, "thorough": TH} for i, f in enumerate([r1, r2, r3, r4, r5, r6, r7, r8], 1)]
+RULES = [{"id": "C17.R%d" % i, "fn": f, "quick": Q, "thorough": TH} for i, f in enumerate([r1, r2, r3, r4, r5, r6, r7, r8, r9], 1)]
